@@ -134,12 +134,25 @@ def run(ck, m):
             w, _ = rex.decide([got, exp], lambda b: b[0] != b[1], limit=3)
             ck.ob("R2", fs_stmt, not w, f"group {i}, unpacked as `{tname}`, does not have the field's language; differs on {w!r}", stmt=f"group {i} -> {tname}")
     ck.expect(sum(1 for t in targets if t in FIELD_LANG) >= 7, "fewer than 7 named fields unpacked in _check_format_spec")
-    ret = next((s for s in cfs.body if isinstance(s, ast.Return)), None)
-    rsrc = norm(ret) if ret else ""
-    ck.ob("R2", ret or cfs, "int(width) if width else 0" in rsrc, "absent width must default to 0 (terminal-relative)", stmt="default width")
-    ck.ob("R2", ret or cfs, "int(height) if height else -2" in rsrc, "absent height must default to -2 (terminal-relative)", stmt="default height")
-    ck.ob("R2", ret or cfs, "if alpha else _ALPHA_THRESHOLD" in rsrc, "absent '#' must default to _ALPHA_THRESHOLD", stmt="default alpha")
-    ck.ob("R2", ret or cfs, "threshold_or_bg and" in rsrc, "a bare '#' (no threshold/bgcolor) must yield None (transparency disabled)", stmt="bare # -> None")
+    # defaults of absent fields: recognised idiom `X(field) if field else <default>`; an unrecognised idiom is an
+    # analysis error (exit 2), a recognised one with another default is a violation.
+    ifexps = {}
+    for n in body_walk(cfs):
+        if isinstance(n, ast.IfExp) and isinstance(n.test, ast.Name):
+            ifexps.setdefault(n.test.id, n)
+    for fld, dflt in (("width", "0"), ("height", "-2")):
+        ie = ifexps.get(fld)
+        ck.expect(ie is not None, f"_check_format_spec: default idiom `int({fld}) if {fld} else <default>` not recognised")
+        if ie is not None:
+            ck.ob("R2", enclosing_stmt(ie), norm(ie.orelse) == dflt and norm(ie.body) == f"int({fld})",
+                  f"absent {fld} must default to {dflt} (terminal-relative) and a present one to int({fld}); found `{norm(ie)}`", stmt=f"default {fld}")
+    ie = ifexps.get("alpha")
+    ck.expect(ie is not None, "_check_format_spec: `<...> if alpha else _ALPHA_THRESHOLD` idiom not recognised")
+    if ie is not None:
+        ck.ob("R2", enclosing_stmt(ie), norm(ie.orelse) == "_ALPHA_THRESHOLD", f"absent '#' must default to _ALPHA_THRESHOLD; found `{norm(ie.orelse)}`", stmt="default alpha")
+        b = ie.body
+        str_guard = isinstance(b, ast.BoolOp) and isinstance(b.op, ast.And) and isinstance(b.values[0], ast.Name) and b.values[0].id in targets
+        ck.expect(str_guard, "_check_format_spec: bare-'#' idiom `<str field> and (...)` not recognised")
     # the documented defaults of draw() and _check_formatting agree
     def defaults(fn):
         a = fn.args
